@@ -57,6 +57,7 @@ type Actor struct {
 	probe  func() bool
 	wakeAt time.Time
 	goid   uint64
+	held   map[string]*heldLock // lock-discipline bookkeeping (engines with "lock_discipline")
 }
 
 // Run is one simulated execution.
@@ -721,3 +722,76 @@ func (r *Run) DrainDaemons() {
 // SetMapSeed changes the Go map iteration seed in the middle of a run (used by
 // order-independence oracles); callers restore Plan.MapSeed|1 afterwards.
 func SetMapSeed(v uint64) { setMapRand(v) }
+
+// ---------------------------------------------------------------- lock discipline
+
+// heldLock is one lock an actor currently holds (as seen by the instrumented Lock/Unlock statements).
+type heldLock struct {
+	write bool
+	n     int
+}
+
+// Acquired / Released / Write are inserted by the instrumenter when an engine sets "lock_discipline": the simulator
+// serialises actors and yields only at lock sites, so a critical section that takes the wrong lock MODE (RLock around
+// a write) can never lose an update in any simulated schedule; this bookkeeping makes that defect observable:
+// a write to the method receiver's state while the actor holds a lock of that receiver in read mode only, and no lock
+// at all in write mode, is reported.
+func Acquired(key string, write bool) {
+	r := cur.Load()
+	if r == nil {
+		return
+	}
+	a := r.actorOfG()
+	if a == nil {
+		return
+	}
+	if a.held == nil {
+		a.held = map[string]*heldLock{}
+	}
+	h := a.held[key]
+	if h == nil {
+		h = &heldLock{write: write}
+		a.held[key] = h
+	}
+	h.n++
+}
+
+func Released(key string) {
+	r := cur.Load()
+	if r == nil {
+		return
+	}
+	a := r.actorOfG()
+	if a == nil || a.held == nil {
+		return
+	}
+	if h := a.held[key]; h != nil {
+		h.n--
+		if h.n <= 0 {
+			delete(a.held, key)
+		}
+	}
+}
+
+func Write(site, recv string) {
+	r := cur.Load()
+	if r == nil || r.killed.Load() {
+		return
+	}
+	a := r.actorOfG()
+	if a == nil || len(a.held) == 0 {
+		return
+	}
+	readOnly := ""
+	for k, h := range a.held {
+		if h.write {
+			return // some exclusive lock is held: not judged
+		}
+		if strings.HasPrefix(k, recv+".") || k == recv {
+			readOnly = k
+		}
+	}
+	if readOnly != "" {
+		r.Fail("lock-discipline", site, "shared state of %s is written at %s while only the read lock %s is held: concurrent writers are not excluded (updates can be lost, maps can be corrupted)", recv, site, readOnly)
+	}
+}
